@@ -151,20 +151,26 @@ def _gdef_has_view(kinds):
     return lambda o: any(type(x).__name__ in kinds for x in (_first_gdef(o).statements if _first_gdef(o) is not None else []))
 
 
+def _first_gdef_term(ex, st, feaFile):
+    """FIRSTGDEF(statements, kind, name): the node `ast.findTable(feaFile, "GDEF")` returns, None being the null node.  The symbol is
+    introduced by definition: findTable's PROVED contract (found-first / none / first-is-result) determines that value uniquely as
+    the first top-level TableBlock named GDEF; the glue model below equates the contract's result with this symbol."""
+    stm = ex.read_field(st, feaFile, "statements").term
+    kind = ex.field_array(st, NODE, "kind")
+    name = ex.field_array(st, NODE, "name")
+    f = z3.Function("c18_firstGDEF", stm.sort(), kind.sort(), name.sort(), T.RefSort)
+    return f(stm, kind, name)
+
+
 def _gdef_has_derived(kinds):
     def d(ex, st, self):
-        stm = ex.read_field(st, self, "statements").term
         kind = ex.field_array(st, NODE, "kind")
-        name = ex.field_array(st, NODE, "name")
         sub = ex.field_array(st, NODE, "statements")
-        a, b, k = z3.Int("a!gd"), z3.Int("b!gd"), z3.Int("k!gd")
-
-        def isg(x):
-            return z3.And(z3.Select(kind, stm[x]) == z3.StringVal("TableBlock"), z3.Select(name, stm[x]) == z3.StringVal("GDEF"))
-
-        inner = z3.Select(sub, stm[a])
-        return Val(BOOL, z3.Exists([a], z3.And(a >= 0, a < z3.Length(stm), isg(a), z3.ForAll([b], z3.Implies(z3.And(b >= 0, b < a), z3.Not(isg(b)))),
-                                          z3.Exists([k], z3.And(k >= 0, k < z3.Length(inner), z3.Or(*[z3.Select(kind, inner[k]) == z3.StringVal(n) for n in kinds]))))))
+        first = _first_gdef_term(ex, st, self)
+        k = z3.Int("k!gd")
+        inner = z3.Select(sub, first)
+        return Val(BOOL, z3.And(z3.Select(kind, first) != z3.StringVal("NoneType"),
+                                z3.Exists([k], z3.And(k >= 0, k < z3.Length(inner), z3.Or(*[z3.Select(kind, inner[k]) == z3.StringVal(n) for n in kinds])))))
 
     return d
 
@@ -198,6 +204,8 @@ def _findTable_glue(ex, st, args, kwargs, node):
     ex.assume_allocated(st, Val(Ref(NODE), NULL))
     ex.assume_allocated(st, Val(Ref(NODE), s.val(r.term)))
     res = z3.If(s.is_some(r.term), s.val(r.term), NULL)
+    if is_const(args[1]) and args[1].py == "GDEF":
+        st.assume(res == _first_gdef_term(ex, st, args[0]))  # definition of FIRSTGDEF (see _first_gdef_term)
     return Val(Ref(NODE), res)
 
 
